@@ -155,6 +155,24 @@ Proof.
 Qed.
 Print Assumptions C11_F4e_refuted.
 
+(* Histories on one Graph object (evaluations interleaved with additions and
+   removals): outside the triggers every evaluation of the model is accepted by
+   the checker against the graph content at that moment ... *)
+Theorem C11_history_model_partial : forall c,
+  h_wf (h_steps c) = true -> hkf c = 0%N -> hspec_ok c (hmodel_obs c) = true.
+Proof. intros c. apply h_spec_model. Qed.
+Print Assumptions C11_history_model_partial.
+
+(* ... and an accepted history answers each evaluation from the graph as it is
+   after the mutations that precede it (no stale answers). *)
+Theorem C11_history_reading : forall steps g os,
+  h_spec g steps os = true ->
+  forall pre p s o sp post, steps = pre ++ HEval p s o sp :: post ->
+  let g' := fold_left (fun g st => match st with HAdd t => g_add t g | HDel t => g_del t g | _ => g end) pre g in
+  exists ob, spec_ok (hc g' p s o sp) ob = true /\ In ob os.
+Proof. exact h_spec_reading. Qed.
+Print Assumptions C11_history_reading.
+
 (* non-vacuity: a nested closure over a graph with a 2-cycle, a self-loop and a
    falsy literal end point is inside the scope of the theorems, and its answer
    from a start that is not in the graph is the zero-length pair alone *)
